@@ -224,3 +224,35 @@ func VH_C07_PartialSuffixNamesAtRoot_sym() {
 		vAssert("suffix_name_read_path_in_root", c07Within("/r", p))
 	}
 }
+
+// The transfer a download/upload request registers is resolved later, on the transfer connection, from the root
+// stored in it: for an account with its own file root that stored root is the account's, never the server-wide one,
+// for each of the four requests that register a file or folder transfer.
+func VH_C07_TransfersRegisteredUnderOwnRoot() {
+	vUnroll(200)
+	e := c07Env()
+	k := vChoice("request", 4)
+	e.fs.isDir = k >= 2 // folder requests address a folder
+	fields := []hotline.Field{f(hotline.FieldFileName, []byte("a")), f(hotline.FieldFilePath, vPathField("b")), f(hotline.FieldTransferSize, []byte{0, 0, 0, 9})}
+	switch k {
+	case 0:
+		vAssume(e.fs.exists)
+		t := hotline.NewTransaction(hotline.TranDownloadFile, e.cc.ID, fields...)
+		HandleDownloadFile(e.cc, &t)
+	case 1:
+		vAssume(!e.fs.exists)
+		t := hotline.NewTransaction(hotline.TranUploadFile, e.cc.ID, fields...)
+		HandleUploadFile(e.cc, &t)
+	case 2:
+		vAssume(e.fs.exists)
+		t := hotline.NewTransaction(hotline.TranDownloadFldr, e.cc.ID, fields...)
+		HandleDownloadFolder(e.cc, &t)
+	default:
+		t := hotline.NewTransaction(hotline.TranUploadFldr, e.cc.ID, fields...)
+		HandleUploadFolder(e.cc, &t)
+	}
+	vAssert("transfer_registered", len(e.ftm.added) == 1)
+	for _, ft := range e.ftm.added {
+		vAssert("transfer_root_is_the_accounts_own_root", ft.FileRoot == "/r")
+	}
+}
